@@ -484,6 +484,13 @@ func (fc *FCtx) run() {
 	cov := &Obligation{Name: fmt.Sprintf("%s/%s/pre-cover", fc.Prop, shortPkg(fi.Key)), Kind: "cover", Assumes: append([]string(nil), st.pc...), Goal: "true", Cover: true, Clause: "requires are satisfiable", Func: fi.Key}
 	fc.Obls = append(fc.Obls, cov)
 	flow := fc.execBlock(fi.Body().List, st)
+	if fc.C != nil {
+		for k := range fc.C.NamedAsserts {
+			if !fc.anchored[k] {
+				oos("assert anchor %q not found in the function body (an unanchored assert would be vacuous)", k)
+			}
+		}
+	}
 	for _, s := range flow.normal {
 		if fc.isDead(s) {
 			continue
